@@ -78,6 +78,26 @@ func dumpFuncs(p *Prog) {
 						out = append(out, typeKey(rel, sp.(*ast.TypeSpec).Name.Name))
 					}
 				}
+				// call edges to functions of the package (the normaliser expands one-expression predicates at call sites
+				// that are not listed here)
+				if fd, ok := d.(*ast.FuncDecl); ok && fd.Body != nil {
+					caller, _ := pk.TypesInfo.Defs[fd.Name].(*types.Func)
+					seen := map[string]bool{}
+					ast.Inspect(fd.Body, func(n ast.Node) bool {
+						id, ok := n.(*ast.Ident)
+						if !ok || caller == nil {
+							return true
+						}
+						if fn, ok := pk.TypesInfo.Uses[id].(*types.Func); ok && fn.Pkg() == pk.Types {
+							k := edgeKey(rel, caller, fn.Origin())
+							if !seen[k] {
+								seen[k] = true
+								out = append(out, k)
+							}
+						}
+						return true
+					})
+				}
 			}
 		}
 	}
@@ -98,6 +118,16 @@ type helper struct {
 	// litOnly: the body has defer / recover / goto, so it cannot be spliced into a caller's statement list; it can still
 	// become the body of a function literal (go h(x), defer h(x), h passed as a value)
 	litOnly bool
+	// deferOnly: litOnly for no other reason than defer statements (no goto, no recover outside a literal)
+	deferOnly bool
+	// knownFn: a function of the known list whose body is one return expression (a named predicate such as doneLocked).
+	// It is expanded only at call sites the known list does not have (a caller that used to spell the expression out and
+	// now calls the predicate, or a new caller): see edgeKey
+	knownFn bool
+}
+
+func edgeKey(rel string, caller, callee *types.Func) string {
+	return rel + "\tedge " + funcName(caller) + " -> " + funcName(callee)
 }
 
 type normaliser struct {
@@ -113,6 +143,10 @@ type normaliser struct {
 	cur  *ast.FuncDecl // the function whose body is being rewritten
 	// anyHelper: helperOf also answers for literal-only helpers
 	anyHelper bool
+	// tailBlocks: the blocks of the current function (which has no results) whose last statement is the last thing the
+	// function does; curTail: the list being rewritten is such a block
+	tailBlocks map[*ast.BlockStmt]bool
+	curTail    bool
 	// freshLhs: the receiving variables that the statement being expanded declares itself (they hold their zero value)
 	freshLhs map[string]bool
 }
@@ -238,7 +272,14 @@ func (nz *normaliser) collect() {
 					continue
 				}
 				obj, _ := pk.TypesInfo.Defs[fd.Name].(*types.Func)
-				if obj == nil || nz.known[funcKey(rel, obj)] {
+				if obj == nil {
+					continue
+				}
+				if nz.known[funcKey(rel, obj)] {
+					if h := nz.eligible(pk, f, fd, obj); h != nil && h.single != nil {
+						h.knownFn = true
+						nz.helpers[obj] = h
+					}
 					continue
 				}
 				if h := nz.eligible(pk, f, fd, obj); h != nil {
@@ -253,7 +294,7 @@ func (nz *normaliser) collect() {
 		ast.Inspect(h.decl.Body, func(n ast.Node) bool {
 			if id, ok := n.(*ast.Ident); ok {
 				if fn, ok := h.pk.TypesInfo.Uses[id].(*types.Func); ok && fn != obj {
-					if _, isH := nz.helpers[fn.Origin()]; isH {
+					if hh, isH := nz.helpers[fn.Origin()]; isH && !hh.knownFn {
 						calls = true
 					}
 				}
@@ -288,7 +329,7 @@ func (nz *normaliser) eligible(pk *packages.Package, file *ast.File, fd *ast.Fun
 		}
 		// methods that may satisfy an interface are dispatched dynamically elsewhere; expanding the static calls is still correct
 	}
-	bad, litOnly := false, false
+	bad, litOnly, other := false, false, false
 	ast.Inspect(fd.Body, func(n ast.Node) bool {
 		switch x := n.(type) {
 		case *ast.FuncLit:
@@ -297,11 +338,11 @@ func (nz *normaliser) eligible(pk *packages.Package, file *ast.File, fd *ast.Fun
 			litOnly = true
 		case *ast.BranchStmt:
 			if x.Tok == token.GOTO {
-				litOnly = true
+				litOnly, other = true, true
 			}
 		case *ast.CallExpr:
 			if id, ok := x.Fun.(*ast.Ident); ok && id.Name == "recover" {
-				litOnly = true
+				litOnly, other = true, true
 			}
 		case *ast.Ident:
 			if pk.TypesInfo.Uses[x] == obj {
@@ -313,7 +354,7 @@ func (nz *normaliser) eligible(pk *packages.Package, file *ast.File, fd *ast.Fun
 	if bad {
 		return nil
 	}
-	h := &helper{obj: obj, decl: fd, pk: pk, file: file, nres: sig.Results().Len(), litOnly: litOnly}
+	h := &helper{obj: obj, decl: fd, pk: pk, file: file, nres: sig.Results().Len(), litOnly: litOnly, deferOnly: litOnly && !other}
 	if !litOnly && len(fd.Body.List) == 1 && h.nres == 1 {
 		if r, ok := fd.Body.List[0].(*ast.ReturnStmt); ok && len(r.Results) == 1 {
 			hasLit := false
@@ -585,6 +626,15 @@ func (nz *normaliser) helperOf(info *types.Info, call *ast.CallExpr) *helper {
 	if h == nil || h.pk.Types != fn.Pkg() || (h.litOnly && !nz.anyHelper) {
 		return nil
 	}
+	if h.knownFn {
+		if nz.cur == nil || nz.pk == nil || nz.pk.Types != fn.Pkg() {
+			return nil
+		}
+		caller, _ := nz.pk.TypesInfo.Defs[nz.cur.Name].(*types.Func)
+		if caller == nil || nz.known[edgeKey(relOf(fn.Pkg().Path()), caller, fn.Origin())] {
+			return nil
+		}
+	}
 	return h
 }
 
@@ -609,11 +659,15 @@ func (nz *normaliser) rewriteAll() {
 					continue
 				}
 				if obj, _ := pk.TypesInfo.Defs[fd.Name].(*types.Func); obj != nil {
-					if _, isH := nz.helpers[obj]; isH {
+					if hh, isH := nz.helpers[obj]; isH && !hh.knownFn {
 						continue // its body is expanded where it is called
 					}
 				}
 				nz.cur = fd
+				nz.tailBlocks = map[*ast.BlockStmt]bool{}
+				if fd.Type.Results == nil || len(fd.Type.Results.List) == 0 {
+					markTail(fd.Body, nz.tailBlocks)
+				}
 				nz.wrapValues(fd.Body)
 				nz.block(fd.Body)
 				nz.exprs(fd.Body)
@@ -782,7 +836,9 @@ func (nz *normaliser) block(n ast.Node) {
 	ast.Inspect(n, func(x ast.Node) bool {
 		switch b := x.(type) {
 		case *ast.BlockStmt:
+			nz.curTail = nz.tailBlocks[b]
 			b.List = nz.list(b.List)
+			nz.curTail = false
 		case *ast.CaseClause:
 			b.Body = nz.list(b.Body)
 		case *ast.CommClause:
@@ -804,12 +860,27 @@ func (nz *normaliser) list(list []ast.Stmt) []ast.Stmt {
 					continue
 				}
 			}
+			// a helper that defers, called as the last thing before a bare return: its body (defers included) can stand in
+			// the caller, because the caller returns the moment the helper does (the deferred calls run at the same
+			// point, in the same order relative to the caller's own)
+			if r, ok := list[i+1].(*ast.ReturnStmt); ok && len(r.Results) == 0 {
+				if rep := nz.tailDefer(st); rep != nil {
+					out = append(out, rep...)
+					continue
+				}
+			}
 			if r, ok := list[i+1].(*ast.ReturnStmt); ok && i+2 == len(list) {
 				if rep := nz.assignThenReturn(st, r); rep != nil {
 					out = append(out, rep...)
 					i++
 					continue
 				}
+			}
+		}
+		if i+1 == len(list) && nz.curTail {
+			if rep := nz.tailDefer(st); rep != nil {
+				out = append(out, rep...)
+				continue
 			}
 		}
 		if rep := nz.stmt(st); rep != nil {
@@ -822,6 +893,52 @@ func (nz *normaliser) list(list []ast.Stmt) []ast.Stmt {
 		}
 	}
 	return out
+}
+
+// tailDefer: st is the call of a helper without results whose body defers; in tail position its body stands in the caller.
+func (nz *normaliser) tailDefer(st ast.Stmt) []ast.Stmt {
+	es, ok := st.(*ast.ExprStmt)
+	if !ok {
+		return nil
+	}
+	call, ok := ast.Unparen(es.X).(*ast.CallExpr)
+	if !ok {
+		return nil
+	}
+	h := nz.helperOfAny(nz.pk.TypesInfo, call)
+	if h == nil || !h.deferOnly || h.nres != 0 || h.knownFn {
+		return nil
+	}
+	rep := nz.expand(h, call, nil, true, false)
+	if rep == nil {
+		return nil
+	}
+	return spliceBlocks(rep)
+}
+
+// markTail records the blocks whose last statement ends the function: the body, and the branches of an if statement that
+// is itself the last statement of such a block.
+func markTail(b *ast.BlockStmt, out map[*ast.BlockStmt]bool) {
+	if b == nil {
+		return
+	}
+	out[b] = true
+	if len(b.List) == 0 {
+		return
+	}
+	var branch func(s ast.Stmt)
+	branch = func(s ast.Stmt) {
+		switch x := s.(type) {
+		case *ast.IfStmt:
+			markTail(x.Body, out)
+			if x.Else != nil {
+				branch(x.Else)
+			}
+		case *ast.BlockStmt:
+			markTail(x, out)
+		}
+	}
+	branch(b.List[len(b.List)-1])
 }
 
 // spliceBlocks: a block that declares nothing at its top level is only a pair of braces; its statements take its place
@@ -1083,6 +1200,9 @@ func (nz *normaliser) hoist(st ast.Stmt) []ast.Stmt {
 	// the whole slot being the call is the ordinary statement form, handled elsewhere
 	for _, sl := range slots {
 		if ast.Unparen(*sl) == ast.Expr(target) {
+			if r, isRet := st.(*ast.ReturnStmt); isRet && len(r.Results) > 1 {
+				continue // `return nil, h(x)`: one result among several is not the statement form
+			}
 			if _, isIf := st.(*ast.IfStmt); !isIf {
 				return nil
 			}
@@ -2703,6 +2823,9 @@ func (nz *normaliser) dropUnused() {
 		return
 	}
 	for obj, h := range nz.helpers {
+		if h.knownFn {
+			continue
+		}
 		used := false
 		for _, f := range h.pk.Syntax {
 			ast.Inspect(f, func(n ast.Node) bool {
